@@ -131,15 +131,12 @@ def file_missing_current(width: WIDTH, removed: Bool, text: Text):
 
 
 @obligation(["C19"], "FileSeqCountProvider.get_and_increment/missing-file", verifies=[M + "FileSeqCountProvider.get_and_increment"])
-def file_missing_next(width: WIDTH, removed: Bool, text: Text, via_next: Bool):
+def file_missing_next(width: WIDTH, removed: Bool, text: Text):
     path = ghost_file(text)
     p = FileSeqCountProvider(width, path)
     if removed:
         ghost_remove(path)
-    if via_next:
-        o = outcome(next, p)
-    else:
-        o = outcome(p.get_and_increment)
+    o = outcome(next, p)
     ensures("file-not-found-iff-absent", o.raised(FileNotFoundError) == removed)
     if removed:
         ensures("not-recreated", file_text(path) is None)
